@@ -1,7 +1,7 @@
 (* Properties_C12.v — property C12: pruning preserves the value surface; bound interpolation is
    exact.  Only statements, each closed by [exact <lemma>] and followed by Print Assumptions. *)
 From Coq Require Import List Arith QArith Qminmax Lqa Lia Bool Permutation.
-From AIT Require Import Base.Qx Base.Mdp C12.Model C12.Spec C12.Proofs C12.ProofsInc C12.ProofsPruner C12.ProofsInterp.
+From AIT Require Import Base.Qx Base.Mdp C12.Model C12.Spec C12.Proofs C12.ProofsInc C12.ProofsPruner C12.ProofsInterp C12.ProofsLpOpt C12.ProofsSep C12.ProofsPars.
 Import ListNotations.
 Local Open Scope Q_scope.
 
@@ -48,6 +48,18 @@ Theorem incremental_perm : forall (A : Type) (dom : A -> A -> bool) (old new : l
 Proof. exact extractDominatedIncrementalBy_perm. Qed.
 Print Assumptions incremental_perm.
 
+(* the three returned iterators (zone ends) are ordered and lie inside the original range *)
+Theorem incremental_iterators_in_range : forall (A : Type) (dom : A -> A -> bool) (old new : list A),
+  let '(og, ngz, obz, nb, nr0) := extractDominatedIncrementalBy dom old new in
+  (length og <= length og + length ngz <= length og + length ngz + length obz)%nat /\
+  (length og + length ngz + length obz + length nb + length nr0 = length old + length new)%nat.
+Proof.
+  intros A dom old new. pose proof (extractDominatedIncrementalBy_perm A dom old new) as H.
+  destruct (extractDominatedIncrementalBy dom old new) as [[[[og ngz] obz] nb] nr0].
+  apply Permutation_length in H. rewrite !app_length in H. lia.
+Qed.
+Print Assumptions incremental_iterators_in_range.
+
 (* under the documented precondition (the old range is internally non-dominated), the good ranges
    of the incremental version and the result of pruning the union are the same set up to mutual
    dominance (for tolerance 0: up to equality of vectors) *)
@@ -59,6 +71,37 @@ Theorem incremental_eq_union : forall (A : Type) (dom : A -> A -> bool),
   (forall y, In y uk -> exists x, In x (og ++ ngz) /\ dom x y = true /\ dom y x = true).
 Proof. exact incremental_eq_union_gen. Qed.
 Print Assumptions incremental_eq_union.
+
+(* ---------------------------------------------------------------- separated inputs *)
+(* when the tolerance test and the exact test agree on all pairs of the input (vectors exactly
+   comparable/tied or separated by more than the tolerances) the code's instances behave like
+   tolerance 0 *)
+Theorem dominated_envelope_separated : forall (n : nat) (l : list vec) (b : vec),
+  separated n l -> nonneg b ->
+  let '(kept, removed) := extractDominated l in env kept b == env l b.
+Proof. exact ProofsSep.dominated_envelope_separated. Qed.
+Print Assumptions dominated_envelope_separated.
+
+Theorem extractDominated_is_pruning_separated : forall (n : nat) (l : list vec),
+  separated n l -> let '(kept, removed) := extractDominated l in is_pruning dominates l kept.
+Proof. exact ProofsSep.extractDominated_is_pruning_separated. Qed.
+Print Assumptions extractDominated_is_pruning_separated.
+
+Theorem incremental_eq_union_separated : forall (n : nat) (old new : list vec),
+  separated n (old ++ new) -> pnd dominates old ->
+  let '(og, ngz, obz, nb, nr0) := extractDominatedIncremental old new in
+  let '(uk, ur) := extractDominated (old ++ new) in
+  ((forall x, In x (og ++ ngz) -> exists y, In y uk /\ veq x y) /\
+   (forall y, In y uk -> exists x, In x (og ++ ngz) /\ veq x y)) /\
+  forall b, nonneg b -> env (og ++ ngz) b == env uk b.
+Proof.
+  intros n old new Hs Hp.
+  pose proof (ProofsSep.incremental_eq_union_separated n old new Hs Hp) as H1.
+  pose proof (ProofsSep.incremental_env_union_separated n old new Hs Hp) as H2.
+  destruct (extractDominatedIncremental old new) as [[[[og ngz] obz] nb] nr0].
+  destruct (extractDominated (old ++ new)) as [uk ur]. exact (conj H1 H2).
+Qed.
+Print Assumptions incremental_eq_union_separated.
 
 (* ---------------------------------------------------------------- best at a point *)
 Theorem findBestAtPoint_max : forall (A : Type) (proj : A -> vec) point l j a v,
@@ -72,6 +115,14 @@ Theorem findBestAtSimplexCorner_max : forall (A : Type) (proj : A -> vec) corner
   nth_error l j = Some a /\ v == nthq (proj a) corner /\ forall x, In x l -> nthq (proj x) corner <= v.
 Proof. exact findBestAtSimplexCorner_max_gen. Qed.
 Print Assumptions findBestAtSimplexCorner_max.
+
+(* lexicographic tie-break: among the maximisers the returned element is the greatest one in the
+   order of veccmp (no maximiser compares Gt to it) *)
+Theorem findBestAtPoint_tiebreak : forall (A : Type) (proj : A -> vec) point l j a v,
+  findBestAtPoint proj point l = Some (j, a, v) ->
+  forall x, In x l -> dot point (proj x) == v -> veccmp (proj x) (proj a) <> Gt.
+Proof. intros A proj point l j a v H. exact (findBestBy_tiebreak A proj (scoreAt proj point) l j a v H). Qed.
+Print Assumptions findBestAtPoint_tiebreak.
 
 (* extractBestAtPoint & co.: a permutation that leaves the useful prefix alone and puts a maximiser
    into the (possibly extended) useful prefix *)
@@ -111,6 +162,22 @@ Theorem pruner_envelope : forall (A : Type) (proj : A -> vec) (findWitness : lis
 Proof. exact ProofsPruner.pruner_envelope. Qed.
 Print Assumptions pruner_envelope.
 
+(* every vector the Pruner keeps is needed: somewhere on the simplex it is strictly above every other
+   kept vector.  Oracle soundness: a reported witness is a point of the simplex where the candidate
+   is strictly above all rows.  The vectors that survive extractDominated must be pairwise different
+   (true after extractDominated for any reflexive dominance test that is transitive on the input). *)
+Theorem pruner_parsimonious : forall (A : Type) (proj : A -> vec) (n : nat)
+  (findWitness : list vec -> vec -> option vec),
+  (forall rows v b, findWitness rows v = Some b -> simplex n b /\ forall r, In r rows -> dot r b < dot v b) ->
+  forall (dom : A -> A -> bool) (l k r r0 : list A),
+  pruner proj findWitness dom n l = Some (k, r, r0) -> (0 < n)%nat ->
+  let l1 := fst (extractDominatedBy dom l) in
+  Forall (fun a => length (proj a) = n) l1 ->
+  (forall l1a x l1b y l1c, l1 = l1a ++ x :: l1b ++ y :: l1c -> ~ veq (proj x) (proj y)) ->
+  forall k1 x k2, k = k1 ++ x :: k2 -> needed n (map proj k1) (proj x) (map proj k2).
+Proof. exact ProofsPars.pruner_parsimonious. Qed.
+Print Assumptions pruner_parsimonious.
+
 (* ---------------------------------------------------------------- interpolation (repaired code) *)
 Theorem interp_weights_ok_sawtooth : forall point ubQ pts vals, interp_wf point pts vals ->
   weights_ok point pts (snd (sawtoothInterpolation point ubQ pts vals)).
@@ -143,6 +210,20 @@ Theorem interp_value_le_weighted : forall point pts vals, interp_wf point pts va
               v <= weighted_value raw (cornerVals ubQ) vals.
 Proof. exact lpi_value_le_weighted_lemma. Qed.
 Print Assumptions interp_value_le_weighted.
+
+(* LPInterpolation equals the optimum of the full interpolation LP (over ALL stored points) whenever a
+   stored point shares the query's support: the value is attained by a feasible solution and is a
+   lower bound of the objective on the feasible set.  lp_opt: the oracle returns a minimiser. *)
+Theorem interp_eq_lp_when_shared_support : forall point pts vals ubQ,
+  interp_wf point pts vals -> ubQ_wf point ubQ ->
+  forall lp_min, lp_sound lp_min -> lp_opt lp_min ->
+  qsum point == 1 /\ Forall (fun b => qsum b == 1) pts ->
+  forall v w, compatiblePoints point pts <> [] ->
+  LPInterpolation lp_min point ubQ pts vals = Some (v, w) ->
+  (exists c, interp_feasible point pts c /\ v == interp_objective point (cornerVals ubQ) pts vals c) /\
+  (forall c', interp_feasible point pts c' -> v <= interp_objective point (cornerVals ubQ) pts vals c').
+Proof. exact interp_eq_lp_lemma. Qed.
+Print Assumptions interp_eq_lp_when_shared_support.
 
 Theorem interp_value_le_weighted_sawtooth : forall point ubQ pts vals,
   interp_wf point pts vals -> ubQ_wf point ubQ ->
@@ -209,9 +290,49 @@ Proof.
   - apply IH; [intros x Hx; apply E1; right; exact Hx| cbn in E2; lia].
 Qed.
 
+(* an oracle that is sound and optimal: the all-zero solution when the costs and bounds are >= 0 *)
+Example ex_lp_opt :
+  let f := fun (rows : mat) (rhs coef : vec) =>
+             if forallb (fun b => Qle_bool 0 b) rhs && forallb (fun b => Qle_bool 0 b) coef && (length rows =? length rhs)%nat
+             then Some (vzero (length coef)) else None in
+  lp_sound f /\ lp_opt f.
+Proof.
+  cbv zeta. split.
+  - intros rows rhs coef c H.
+    destruct (forallb (fun b => Qle_bool 0 b) rhs && forallb (fun b => Qle_bool 0 b) coef && (length rows =? length rhs)%nat) eqn:E; [|discriminate].
+    inversion H; subst. apply andb_true_iff in E. destruct E as [E E2]. apply andb_true_iff in E. destruct E as [E1 _]. apply Nat.eqb_eq in E2.
+    split; [apply nonneg_vzero|]. split; [apply vzero_length|].
+    rewrite forallb_forall in E1. revert rhs E1 E2. induction rows as [|r rows IH]; intros [|b rhs] E1 E2; try discriminate E2; constructor.
+    + rewrite dot_repeat0_r. apply Qle_bool_iff. apply E1. left; reflexivity.
+    + apply IH; [intros x Hx; apply E1; right; exact Hx| cbn in E2; lia].
+  - intros rows rhs coef c H c' Hc' _ _.
+    destruct (forallb (fun b => Qle_bool 0 b) rhs && forallb (fun b => Qle_bool 0 b) coef && (length rows =? length rhs)%nat) eqn:E; [|discriminate].
+    inversion H; subst. apply andb_true_iff in E. destruct E as [E _]. apply andb_true_iff in E. destruct E as [_ E1].
+    rewrite dot_repeat0_r. rewrite forallb_forall in E1. clear H.
+    revert c' Hc'. induction coef as [|x coef IH]; intros [|y c'] Hc'; cbn [dot]; try lra.
+    inversion Hc'; subst. assert (0 <= x) by (apply Qle_bool_iff, E1; left; reflexivity).
+    assert (0 <= dot coef c') by (apply IH; [intros z Hz; apply E1; right; exact Hz| assumption]). nra.
+Qed.
+
 (* the Pruner model with a complete oracle that never reports a witness when rows already cover v *)
 Example ex_pruner_run :
   prunerV (fun rows v => if forallb (fun b => Qle_bool (dot v b) (best rows b)) [[1;0];[0;1];[1#2;1#2]] then None else Some [1#2;1#2])
           2 [[1;0];[0;1];[3#4;3#4];[1#4;1#4]]
   = Some ([[1;0];[0;1];[3#4;3#4]], [], [[1#4;1#4]]).
 Proof. vm_compute. reflexivity. Qed.
+
+(* a witness oracle that is sound by construction (it tests its answer) *)
+Example ex_fw_sound :
+  let fw := fun (rows : list vec) (v : vec) =>
+              if forallb (fun r => negb (Qle_bool (dot v [1#2;1#2]) (dot r [1#2;1#2]))) rows then Some [1#2;1#2] else None in
+  (forall rows v b, fw rows v = Some b -> simplex 2 b /\ forall r, In r rows -> dot r b < dot v b) /\
+  fw [[1;0];[0;1]] [3#4;3#4] = Some [1#2;1#2].
+Proof.
+  cbv zeta. split; [|vm_compute; reflexivity].
+  intros rows v b H. destruct (forallb _ rows) eqn:E; [|discriminate]. inversion H; subst.
+  split.
+  - split; [reflexivity|]. split; [repeat constructor; discriminate| reflexivity].
+  - intros r Hr. rewrite forallb_forall in E. specialize (E r Hr). apply negb_true_iff in E.
+    destruct (Qlt_le_dec (dot r [1 # 2; 1 # 2]) (dot v [1 # 2; 1 # 2])) as [Hl|Hg]; [exact Hl|].
+    apply Qle_bool_iff in Hg. congruence.
+Qed.
